@@ -938,8 +938,9 @@ impl Recv {
         // is accepted: a stream that is remotely reset already, or that is
         // closed with nothing left to send (the frame is then ignored
         // below), must not be counted (again).
-        let becomes_remote_reset = !stream.state.is_remote_reset()
-            && !(stream.state.is_closed() && !stream.is_pending_send);
+        let queued = stream.is_pending_send || !stream.pending_send.is_empty();
+        let becomes_remote_reset =
+            !stream.state.is_remote_reset() && !(stream.state.is_closed() && !queued);
 
         if stream.is_pending_accept && becomes_remote_reset {
             if counts.can_inc_num_remote_reset_streams() {
@@ -956,8 +957,9 @@ impl Recv {
             }
         }
 
-        // Notify the stream
-        stream.state.recv_reset(frame, stream.is_pending_send);
+        // Notify the stream. Frames may still be queued on the stream although
+        // it is not scheduled for sending (it is waiting for window capacity).
+        stream.state.recv_reset(frame, queued);
 
         stream.notify_send();
         stream.notify_recv();
